@@ -174,7 +174,7 @@ func c03Sweeps(r rm.Router, tier string) []sweep {
 	}
 	out = append(out, sweep{"P3", r, triples(pathAtoms(u3)), crossReqs(u3.Paths(), u3.QMethods, rs.PathSweepHeaders[:1], true)})
 	// header variants: two routes on one template distinguished by method, plus a more specific sibling
-	hu := rs.HeaderUniverse{Consumes: [][]string{nil, {rs.JSON}}, Produces: [][]string{nil, {rs.XML}}, Ifs: [][]rm.Cond{nil, {rm.CondHdr}}, NoCT: [][]string{nil},
+	hu := rs.HeaderUniverse{Consumes: [][]string{nil, {rs.JSON}}, Produces: [][]string{nil, {rs.XML}, {rs.JSON}}, Ifs: [][]rm.Cond{nil, {rm.CondHdr}}, NoCT: [][]string{nil},
 		CTs: []string{"", rs.JSON}, Accepts: []string{"", rs.XML, "text/plain", rs.XML + ",," + rs.JSON}, XCs: []string{"", "1"}, Bodies: []bool{false, true}}
 	ha := headerAtoms("/h", []string{"/{x}", "/a"}, []string{"GET", "POST"}, hu.Decls())
 	out = append(out, sweep{"H2", r, pairs(ha), crossReqs([]h.Req{{Segs: []string{"h", "a"}}, {Segs: []string{"h", "b"}}}, []string{"GET", "POST", "PUT"}, hu.Combos(), false)})
